@@ -124,6 +124,7 @@ func (f *Frame) inlineCall(callee *ssa.Function, args []*SVal, clo *Closure, pos
 	g := f.g
 	cf := g.newFrame(callee, false)
 	cf.depth = f.depth + 1
+	cf.parent = f
 	cf.callerScopes = f.activeMods()
 	for i, p := range callee.Params {
 		if i < len(args) {
@@ -260,6 +261,7 @@ func (f *Frame) callContract(ct *Contract, callee *ssa.Function, sig *types.Sign
 		if star {
 			post = g.newEpochState()
 			g.assume("true", wmInv(g.heapGet(post, allocHeap, allocSort)))
+			f.keepPrivateLocals(pre, post)
 			f.checkItemsAllowed(items, pos, key)
 		} else {
 			f.checkItemsAllowed(items, pos, key)
@@ -278,6 +280,7 @@ func (f *Frame) callContract(ct *Contract, callee *ssa.Function, sig *types.Sign
 		if ms.all {
 			post = g.newEpochState()
 			g.assume("true", wmInv(g.heapGet(post, allocHeap, allocSort)))
+			f.keepPrivateLocals(pre, post)
 		} else {
 			g.havocNames(post, ms)
 		}
@@ -354,6 +357,7 @@ func (f *Frame) havocCall(callee *ssa.Function, key string, c *ssa.CallCommon, a
 	if ms.all {
 		f.curState = g.newEpochState()
 		g.assume("true", wmInv(g.heapGet(f.curState, allocHeap, allocSort)))
+		f.keepPrivateLocals(preClock, f.curState)
 	} else {
 		f.curState = g.clone(f.curState)
 		g.havocNames(f.curState, ms)
